@@ -151,11 +151,11 @@ def check(case, stats):
         exponent_form = False
         if sorted(stat.groupnames) != sorted(gnames):
             raise Violation(f"loaded group names {sorted(stat.groupnames)} != evaluator groups {sorted(gnames)}")
-        if list(stat.subjectnames) != [s["name"] for s in case["subjects"]]:
+        if sorted(stat.subjectnames) != sorted(s["name"] for s in case["subjects"]):  # row order is not part of the property
             raise Violation(f"loaded subjects {stat.subjectnames} != submitted {[s['name'] for s in case['subjects']]}")
         keys = list(lib.evaluator(cfg).resulting_metric_keys)
         want_metrics = keys + (["computation_time"] if case["log_times"] else [])
-        if list(stat.metricnames) != want_metrics:
+        if sorted(stat.metricnames) != sorted(want_metrics):  # column order is not part of the property
             raise Violation(f"loaded metric names {stat.metricnames} != evaluator's metric keys {want_metrics}")
         for s in case["subjects"]:
             one = H.lib_call(stat.get_one_subject, s["name"])
